@@ -51,7 +51,8 @@ def record(o0: bool, o1: bool, has_message: bool, bad_template: bool, no_templat
     pre: True
     post: _
     """
-    tick()
+    if tick():
+        return True
     outcome = bits(o0, o1)
     if outcome == 3:
         return True
@@ -135,7 +136,8 @@ def commands(c0: bool, c1: bool, c2: bool, act: bool, d0: bool, d1: bool, d2: bo
     pre: True
     post: _
     """
-    tick()
+    if tick():
+        return True
     i, j = bits(c0, c1, c2), bits(d0, d1, d2)
     if i >= 5 or j >= 5:
         return True
@@ -177,7 +179,8 @@ def render(f: str, g: str, custom: bool, explicit: bool, msg: str) -> bool:
     pre: f in VALUES and g in VALUES
     post: _
     """
-    tick()
+    if tick():
+        return True
     t = int(PART) if PART else 3
     r = Report()
     if custom:
@@ -241,7 +244,8 @@ def overrides(a0: bool, a1: bool, a2: bool, b0: bool, b1: bool, b2: bool, c0: bo
     pre: True
     post: _
     """
-    tick()
+    if tick():
+        return True
     ops = [bits(a0, a1, a2), bits(b0, b1, b2), bits(c0, c1, c2)]
     vals = [v1, v2, v3]
     r = Report()
@@ -279,7 +283,8 @@ def overrides_reach(v1: str) -> bool:
     pre: True
     post: _
     """
-    tick()
+    if tick():
+        return True
     r = Report()
     _reset_classes()
     try:
@@ -308,7 +313,8 @@ def instances(f1: str, f2: str, h1: bool, h2: bool, l1: bool, l2: bool, same_rep
     pre: f1 in VALUES and f2 in VALUES
     post: _
     """
-    tick()
+    if tick():
+        return True
     r1 = Report()
     r2 = r1 if same_report else Report()
     kw1 = {"f": f1, "hint": "h1" if h1 else "", "location": 3 if l1 else 5}
